@@ -249,6 +249,24 @@ def main():
             cf_exes[f["id"]] = build_cf(f["id"], os.path.join(VERIF, f["counterfactual"])) if f.get("counterfactual") else None
         return cf_exes[f["id"]]
 
+    def attribute(v, path):
+        """Known finding?  The violation must disappear when exactly that call site is neutralised."""
+        for f in kf.get("findings", []):
+            if prop not in f.get("properties", []):
+                continue
+            if f.get("classes") and v["cls"] not in f["classes"]:
+                continue
+            if v["cls"] in f.get("match_classes", []):
+                return f   # the oracle itself established the finding's exact precondition
+            if f.get("counterfactual"):
+                cexe = cf_exe(f)
+                if not cexe:
+                    continue   # patch no longer applies: cannot attribute
+                rc2, r2, _ = replay(cexe, path)
+                if r2 is not None and not has_viol(r2, prop, v["cls"]):
+                    return f
+        return None
+
     budget_shrink = 12 if tier == "quick" else 40
     for d in sorted(viol_runs, key=lambda d: d["run"]):
         path = os.path.join(outdir, "replay_%s_%d_%d.json" % (prop, seed, d["run"]))
@@ -266,24 +284,7 @@ def main():
             if not has_viol(r1, prop, v["cls"]):
                 harness_problem = "violation %s/%s of run %d did not reproduce on replay (harness nondeterminism)" % (prop, v["cls"], d["run"])
                 continue
-            # known finding?  It must disappear when exactly that call site is neutralised.
-            attributed = None
-            for f in kf.get("findings", []):
-                if prop not in f.get("properties", []):
-                    continue
-                if f.get("classes") and v["cls"] not in f["classes"]:
-                    continue
-                if f.get("counterfactual"):
-                    cexe = cf_exe(f)
-                    if not cexe:
-                        continue   # patch no longer applies: cannot attribute
-                    rc2, r2, _ = replay(cexe, path)
-                    if r2 is not None and not has_viol(r2, prop, v["cls"]):
-                        attributed = f
-                        break
-                elif f.get("match") and f["match"] in v["msg"]:
-                    attributed = f
-                    break
+            attributed = attribute(v, path)
             if attributed:
                 known_hit[(attributed["id"], attributed["what"])] += 1
                 continue
@@ -321,6 +322,12 @@ def main():
                 _, rb, _ = replay(use, mp)
                 if has_viol(ra, prop, v["cls"]) and has_viol(rb, prop, v["cls"]) and ra["hash"] == rb["hash"]:
                     final = mp
+                    # a run can contain a known finding next to something else of the same
+                    # class; the minimised history isolates one cause, so ask again
+                    f2 = attribute(v, mp)
+                    if f2:
+                        known_hit[(f2["id"], f2["what"])] += 1
+                        continue
         reported.append((v, final))
 
     wall = time.time() - t0
